@@ -836,7 +836,7 @@ pub fn run(tier_name: &str, seed: u64) -> i32 {
             // one violation per (clause, signature) per scenario, minimised
             let mut seen = BTreeSet::new();
             for f in fails {
-                if !seen.insert((f.clause.clone(), f.signature.clone())) {
+                if !seen.insert((f.clause.clone(), f.signature.clone())) || !tally.first_few(&f.clause, &f.signature, 2) {
                     continue;
                 }
                 tally.bump("raw_failures", 1);
